@@ -106,6 +106,8 @@ def call(L, op):
                     r = [int(v) for v in L.find_closest_indices(a[0], a[1], a[2])]
                 elif kind == "interp":
                     r = float(L.interpolate_value(a[0], a[1], a[2]))
+                elif kind == "reset":
+                    r = L.reset()
                 else:
                     raise RuntimeError("unknown op " + kind)
         except Exception as e:
@@ -284,6 +286,11 @@ def oracle_addr(case):
                     expect_write = (ijk, float(a[3]))
             else:
                 expect_write = "any"
+        elif kind == "reset":
+            if st != "ok":
+                return f"{where}: reset() raised {r}"
+            for ijk in shadow:
+                shadow[ijk] = 0.0
         elif kind == "closest":
             if all(finite(a[d]) and not float_tie(A[d], a[d]) for d in range(3)):
                 want = [nearest(A[d], a[d]) for d in range(3)]
@@ -462,6 +469,12 @@ def gen_addr(rng, small=False):
                 xyz[rng.randrange(3)] = rng.choice(special)
             op = [kind] + xyz + ([nv()] if kind.startswith("set") else [])
         ops.append(op)
+        if rng.random() < 0.03:
+            # reset in the middle of a history, then look at some nodes through every accessor again
+            ops.append(["reset"])
+            for _ in range(3):
+                xyz = [rng.choice(axes[d]) for d in range(3)]
+                ops += [["interp"] + xyz, ["get"] + xyz]
     # systematic part: every node by every accessor, x_max corner
     if not small:
         for i in range(n[0]):
@@ -692,6 +705,14 @@ def coq_case(case, got, intern=None):
         f = fv
         for op, out in zip(case["ops"], got["outs"]):
             s, p = coq_status(out, f)
+            if op[0] == "reset":
+                # for the model a reset is a write of 0 to every node (a failing reset shows as a rejected write)
+                nn = ax["n"]
+                for i in range(nn[0]):
+                    for j in range(nn[1]):
+                        for k in range(nn[2]):
+                            items.append(f"(QE {coq_query(['set_idx', i, j, k, 0.0], f)} {s} {p})")
+                continue
             items.append(f"(QE {coq_query(op, f)} {s} {p})")
         return f"(check_addr {coq_lat(ax, 'gidx')} {coq_list(items)} {coq_list([f(v) for v in got['grid']])})"
     if k == "arith":
